@@ -1894,20 +1894,50 @@ def x20(e: Engine, rep: Report):
             rep.evaluations += 1
             out = []
             repeated_groups(items, False, out)
-            # groups nobody reads may repeat (validation-only patterns)
+            # groups nobody reads may repeat (validation-only patterns):
+            # what is read off a match of THIS pattern
             read, every = set(), False
-            for y in ast.walk(m.tree):
-                if isinstance(y, ast.Call) and \
-                        isinstance(y.func, ast.Attribute):
-                    if y.func.attr == 'group':
-                        for a in y.args:
-                            if isinstance(a, ast.Constant):
-                                read.add(a.value)
-                            else:
-                                every = True
-                    elif y.func.attr in ('groups', 'groupdict', 'findall',
-                                         'split', 'expand', 'sub', 'subn'):
+            for fn in ast.walk(m.tree):
+                if not isinstance(fn, (ast.FunctionDef, ast.Module)):
+                    continue
+                vs = set()
+                for y in ast.walk(fn):
+                    src = None
+                    if isinstance(y, ast.Assign):
+                        src, tg = y.value, y.targets
+                    elif isinstance(y, ast.NamedExpr):
+                        src, tg = y.value, [y.target]
+                    elif isinstance(y, (ast.For, ast.comprehension)):
+                        src, tg = y.iter, [y.target]
+                    if isinstance(src, ast.Call) and \
+                            isinstance(src.func, ast.Attribute) and \
+                            isinstance(src.func.value, ast.Name) and \
+                            src.func.value.id == name:
+                        if src.func.attr in ('findall', 'split', 'sub',
+                                             'subn'):
+                            every = True
+                        vs |= {t.id for t in tg if isinstance(t, ast.Name)}
+                    elif isinstance(y, ast.Call) and \
+                            isinstance(y.func, ast.Attribute) and \
+                            isinstance(y.func.value, ast.Name) and \
+                            y.func.value.id == name and \
+                            y.func.attr in ('findall', 'split', 'sub',
+                                            'subn'):
                         every = True
+                for y in ast.walk(fn):
+                    if isinstance(y, ast.Call) and \
+                            isinstance(y.func, ast.Attribute) and \
+                            isinstance(y.func.value, ast.Name) and \
+                            y.func.value.id in vs:
+                        if y.func.attr == 'group':
+                            for a0 in y.args:
+                                if isinstance(a0, ast.Constant):
+                                    read.add(a0.value)
+                                else:
+                                    every = True
+                        elif y.func.attr in ('groups', 'groupdict',
+                                             'expand'):
+                            every = True
             if not every:
                 out = [g0 for g0 in out if g0 in read]
             rep.check(not out, 'X20', '%s.%s' % (mn, name),
